@@ -107,8 +107,11 @@ C02_ApplyOrdered ==
     \A k1, k2 \in Applies : (k1 < k2 /\ devlog[k1].t = devlog[k2].t) => IdxOf(devlog[k1].id) <= IdxOf(devlog[k2].id)
 
 \* finished applying (successfully or with a recorded failure), or never going to apply
+\* (the applied index of the configuration moving past a proposal is what finishes it for its successors: after a
+\* crash between the configuration write and the proposal write, the proposal's own record lags behind)
 FinishedApplying(id) == LET p == props[id] IN
-    p.ph.app \in {"D", "F"} \/ p.ph.abt # "N" \/ p.ph.val = "F"
+    \/ p.ph.app \in {"D", "F"} \/ p.ph.abt # "N" \/ p.ph.val = "F"
+    \/ p.t \in DOMAIN cfgs /\ cfgs[p.t].applied >= p.i
 
 \* evaluated in the state right after the send (and ever after): every earlier proposal of that target is finished
 C02_ApplyAfterPredecessors ==
